@@ -14,6 +14,7 @@ package main
 import (
 	"context"
 	"fmt"
+	"regexp"
 	"sort"
 	"strings"
 
@@ -28,7 +29,28 @@ import (
 	"verifharness/internal/sexp"
 )
 
-var composedKinds = []string{"plain", "args", "hostile", "renamed", "args-renamed", "mutated", "raw", "vars", "args-vars", "plain"}
+var composedKinds = []string{"plain", "args", "hostile", "renamed", "args-renamed", "mutated", "raw", "vars", "args-vars", "args-lexical"}
+
+var quotedLiteral = regexp.MustCompile(`"[^"\n]*"`)
+
+// the lexical items that are (meant as) string values
+func lexStrings() []string {
+	var out []string
+	for _, c := range blankBlockContents {
+		out = append(out, `"""`+c+`"""`)
+	}
+	for _, s := range lexRegress {
+		if strings.HasPrefix(s, `"`) {
+			out = append(out, s)
+		}
+	}
+	for _, w := range []string{"\u00a0", "\u2028", bom, "\x0b", "\u0085"} {
+		out = append(out, hostileBlockFamily(w, "\n")...)
+	}
+	return out
+}
+
+var lexStringItems = lexStrings()
 
 var composedWords = []string{"__typename", "__schema", "__type", "name", "kind", "queryType", "query", "mutation", "subscription", "fragment", "on",
 	"skip", "include", "if", "true", "false", "null", "Boolean", "Int", "String", "$v0", "$v1", "$v2", "Main", "X1", "F1", "F2", "CY", "y_f0", "zt", "m"}
@@ -81,6 +103,15 @@ func composedCase(r *rng.R, kind string) sexp.Node {
 		default:
 			i := r.Intn(len(text) + 1)
 			text = text[:i] + junk + text[i:]
+		}
+	case "args-lexical":
+		// a string value of the document replaced by a lexical corner (an empty / blank-only
+		// block string, escapes, look-alike white space inside a block string, unterminated ...)
+		item := rng.Pick(r, lexStringItems)
+		if loc := quotedLiteral.FindStringIndex(text); loc != nil {
+			text = text[:loc[0]] + item + text[loc[1]:]
+		} else {
+			text = item + " " + text
 		}
 	case "vars", "args-vars":
 		// raw variable values the declarations may not accept
@@ -145,7 +176,28 @@ func composedCase(r *rng.R, kind string) sexp.Node {
 	default:
 		observed = sexp.T("executed", exe.Observe(o.resp))
 	}
+	// the same request through ParseAndValidate with the cost rule (default cost per field, a limit)
+	max := rng.Pick(r, []int{-1, 0, 2, 5, 12, 1000})
+	res := rng.Pick(r, []int{1, 1, 1, 0, 2, 3})
+	actual := -7
+	costObs := sexp.T("panic")
+	co := guarded(func() outcome {
+		_, errs := graphql.ParseAndValidate(text, s, nil, graphql.ValidateCost(in.OpName, vars, max, &actual, graphql.FieldCost{Resolver: res}))
+		switch {
+		case len(errs) == 0:
+			costObs = sexp.T("accepted", sexp.Int(actual))
+		case syntax:
+			costObs = sexp.T("syntax")
+		default:
+			costObs = sexp.T("invalid")
+		}
+		return outcome{class: "ok"}
+	})
+	if co.class != "ok" {
+		costObs = sexp.T(co.class, sexp.Str(co.detail))
+	}
 	return sexp.T("case", sexp.T("stream", sexp.Sym("composed")), sexp.T("api", sexp.Sym("execute")), sexp.T("kind", sexp.Sym(kind)),
+		sexp.T("cost", sexp.T("max", sexp.Int(max)), sexp.T("res", sexp.Int(res)), sexp.T("obs", costObs)),
 		sexp.T("query", sexp.Str(text)), sexp.T("op", sexp.Str(in.OpName)),
 		sexp.T("features", sexp.L()),
 		sexp.T("vschema", vld.SchemaSexp(s, in.ScalarKinds())),
